@@ -438,7 +438,7 @@ def equinox_case(X, Y):
 
 
 def ccsds_case(kind, fmt, X, Y):
-    """OPM (state + an impulsive and a continuous maneuver) / OEM (2-point ephemeris): every written epoch, decoded with the TIME_SYSTEM the message
+    """OPM (state + an impulsive and a continuous maneuver) / OEM (2-point ephemeris, a covariance on each point): every written epoch, decoded with the TIME_SYSTEM the message
     declares, is the instant of the object it describes -- also when maneuver / point dates carry another label than the header date"""
     def run(env, v):
         if not env.symbolic:
@@ -467,6 +467,10 @@ def ccsds_case(kind, fmt, X, Y):
             later = (a + STD.of(60)).change_scale(Y)
             e = Ephem([StateVector([7e6, 0.0, 0.0, 0.0, 7.5e3, 0.0], a, "cartesian", "EME2000"),
                        StateVector([7e6, 1.0, 0.0, 0.0, 7.5e3, 0.0], later, "cartesian", "EME2000")])
+            # both points carry a covariance: its EPOCH is one more written date (of the point it belongs to)
+            from beyond.orbits.cov import Cov
+            for pt in e:
+                pt.cov = Cov(pt, np.identity(6), pt.frame)
             text = ccsds.dumps(e, fmt=fmt)
             expected = None
         msys = re.search(r"TIME_SYSTEM\W+([A-Z0-9]+)", text)
@@ -500,8 +504,15 @@ def ccsds_case(kind, fmt, X, Y):
             later = (a + __import__("datetime").timedelta(seconds=60)).change_scale(labels_for_replay(X, Y)[1])
             e = Ephem([StateVector([7e6, 0.0, 0.0, 0.0, 7.5e3, 0.0], a, "cartesian", "EME2000"),
                        StateVector([7e6, 1.0, 0.0, 0.0, 7.5e3, 0.0], later, "cartesian", "EME2000")])
-            back = ccsds.loads(ccsds.dumps(e, fmt=fmt))
-            errs = [abs((back[0].date - a).total_seconds()), abs((back[1].date - later).total_seconds())]
+            from beyond.orbits.cov import Cov
+            for pt in e:
+                pt.cov = Cov(pt, np.identity(6), pt.frame)
+            try:
+                back = ccsds.loads(ccsds.dumps(e, fmt=fmt))
+                errs = [abs((back[0].date - a).total_seconds()), abs((back[1].date - later).total_seconds()),
+                        0.0 if (back[0].cov is not None and back[1].cov is not None) else 1.0]
+            except Exception:  # noqa -- a message whose epochs do not match each other cannot be read back
+                errs = [1e9]
             out = {f"epoch{k}": Holds(max(errs) < 1e-5) for k in range(12)}
             out["_n"] = 12
             return out
